@@ -238,7 +238,18 @@ class CallStack(deque):
             self.maxdepth = self.default_maxdepth
 
         self.counter = 0
+        # The first `taint` nodes of the stack are executing formulas
+        # under which a failure has occurred (a formula may be handling it)
+        self.taint = 0
         deque.__init__(self)
+
+    def is_tainted(self):
+        """True if a failure occurred under the formula on top of the stack
+
+        The value of such a formula may depend on the cause of the failure,
+        of which the trace graph knows nothing: it must not be cached.
+        """
+        return len(self) <= self.taint
 
     def last(self):     # Not used anymore
         return self[-1]
@@ -264,6 +275,9 @@ class CallStack(deque):
         self.counter += 1
 
     def pop(self):
+        if self.is_tainted():
+            return self._pop_tainted()
+
         node = deque.pop(self)
         self.idxstack.pop()
         self.counter -= 1
@@ -302,9 +316,29 @@ class CallStack(deque):
 
         return node
 
+    def _pop_tainted(self):
+        """Pop a node whose value is returned but not kept"""
+        node = deque.pop(self)
+        self.idxstack.pop()
+        self.counter -= 1
+        self.taint = min(self.taint, len(self))
+
+        graph = node[OBJ].model.tracegraph
+        if graph.has_node(node):
+            graph.remove_node(node)
+
+        while self.refstack:
+            if self.refstack[-1][0] == self.counter:
+                self.refstack.pop()
+            else:
+                break
+
+        return node
+
     def rollback(self):
         node = deque.pop(self)
         self.idxstack.pop()
+        self.taint = len(self)
         exc = sys.exc_info()[1]
         if exc is not self.executor.rolledback_exc:
             # Nodes rolled back by another exception belong to a failure
